@@ -283,7 +283,10 @@ class TimeReparametrizedModel(McmcSaemCompatibleModel):
         super()._validate_compatibility_of_dataset(dataset)
         if not dataset:
             return
-        if self.source_dimension is None:
+        if self.source_dimension is None and dataset.dimension == 1:
+            # univariate data: no source (the dimension is not known yet at this point)
+            self.source_dimension = 0
+        elif self.source_dimension is None:
             self.source_dimension = int(dataset.dimension**0.5)
             warnings.warn(
                 "You did not provide `source_dimension` hyperparameter for multivariate model, "
